@@ -142,6 +142,15 @@ def _c18(pid, tier):
 REGISTRY["C18"] = _c18
 
 
+def _c1314(pid, tier):
+    from . import c1314
+    return c1314.check(pid, tier)
+
+
+REGISTRY["C13"] = _c1314
+REGISTRY["C14"] = _c1314
+
+
 def main(argv=None):
     ap = argparse.ArgumentParser()
     ap.add_argument("pid")
